@@ -303,7 +303,14 @@ func c14Prop(sc Scenario, cases *[]*c14case) func(t *rapid.T) {
 						t.Error("concurrent failure")
 						failing[g]++
 					case "Errorf":
-						t.Errorf("%s", "concurrent failure")
+						if r.chance(1, 2) {
+							// the message is what the arguments were when Errorf was called: the caller may reuse them at once
+							args := []int{g, i}
+							t.Errorf("worker %v failed", args)
+							args[0], args[1] = -1, -1
+						} else {
+							t.Errorf("%s", "concurrent failure")
+						}
 						failing[g]++
 					case "Fail":
 						t.Fail()
@@ -387,6 +394,12 @@ func c14Run(t *testing.T, sc Scenario, res *Result) {
 		}
 		res.inc("checks_run")
 		rp := parseReport(tb)
+		for _, e := range tb.events {
+			if strings.Contains(e.Text, "worker [-1") {
+				outcomes = append(outcomes, outcome{"failed", e.Text})
+				break
+			}
+		}
 		anyFail := false
 		for _, cs := range cases {
 			if cs.failingOps > 0 || cs.lateFailing.Load() > 0 {
@@ -429,6 +442,12 @@ func c14Run(t *testing.T, sc Scenario, res *Result) {
 			if failed != (nf > 0) {
 				res.violate(sc, "c14/lost-update", fmt.Sprintf("case %d: %d failing calls were made by goroutines (%d of them while cleanup functions ran) but the case's outcome is %q", i, nf, cs.lateFailing.Load(), outcomes[i].kind+" "+outcomes[i].msg), nil)
 			}
+		}
+	}
+	for _, o := range outcomes {
+		if strings.Contains(o.msg, "worker [-1") {
+			res.violate(sc, "c14/late-format", "the failure message was formatted after Errorf had returned (it shows what the caller stored in the arguments afterwards): "+clip(o.msg, 200), nil)
+			break
 		}
 	}
 	for i, cs := range cases {
